@@ -153,6 +153,9 @@ pub struct Node {
     cmd_tx: UnboundedSender<NodeCmd>,
     ev_rx: UnboundedReceiver<NodeEv>,
     pub exec: Arc<Shared>,
+    /// generation of the current hold of this node's Connection tasks (0 = not held); see the `stall` step
+    pub hold_gen: u32,
+    pub holds: u32,
     pub log: Arc<Mutex<Vec<String>>>,
     views: HashMap<String, View>,
     policy: HashMap<String, Policy>,
@@ -287,6 +290,8 @@ impl Node {
             views: HashMap::new(),
             policy: HashMap::new(),
             async_tx,
+            hold_gen: 0,
+            holds: 0,
             async_inflight: inflight,
             panics_logged: 0,
             dialfails: 0,
@@ -871,7 +876,21 @@ impl Net {
                 let on = s["on"].as_bool().unwrap_or(true);
                 match s["cls"].as_str().unwrap_or("conn") {
                     "proto" => self.nodes[i].exec.hold_proto.store(on, Ordering::SeqCst),
-                    _ => self.nodes[i].exec.hold_conn.store(on, Ordering::SeqCst),
+                    _ => {
+                        if !on {
+                            self.nodes[i].hold_gen = 0;
+                        }
+                        self.nodes[i].exec.hold_conn.store(on, Ordering::SeqCst);
+                        if on {
+                            // a Connection task that was being polled when the flag was set finishes that poll; after
+                            // this pause no consumer of the synchronous channel runs until the hold is released, and
+                            // send events carry the generation of the hold ("hg") so that the monitor can count
+                            // what the channel accepted without a consumer
+                            tokio::time::sleep(Duration::from_millis(40)).await;
+                            self.nodes[i].holds += 1;
+                            self.nodes[i].hold_gen = self.nodes[i].holds;
+                        }
+                    }
                 }
                 if on && s["long"].as_bool().unwrap_or(false) {
                     for j in 0..self.nodes.len() {
@@ -943,7 +962,8 @@ impl Net {
                     v.must_close = true;
                 }
             }
-            node.push(json!({"e":"send","p":to,"m":"s","per": if open {period} else {0},"n":seq,"len":len,"sz":szc,"r":res,"w":took}));
+            let hg = node.hold_gen;
+            node.push(json!({"e":"send","p":to,"m":"s","per": if open {period} else {0},"n":seq,"len":len,"sz":szc,"r":res,"w":took,"hg":hg}));
             if res == "clogged" || (res == "ok" && len > max) {
                 let me = self.nodes[i].name.clone();
                 let j = idx_of(to);
